@@ -56,6 +56,7 @@ type callPattern struct {
 	caps     []capture
 	recvFunc string // lowered function returning the receiver value
 	iface    *types.Interface
+	dynamic  bool // call of a function value (field or variable of func type)
 }
 
 type EffectClause struct {
@@ -63,9 +64,13 @@ type EffectClause struct {
 	Line     int
 	Every    *callPattern
 	NeedsDir string // "" | before | after
+	Forbid   bool   // the Needs pattern must NOT occur
 	Needs    *callPattern
 	Where    string
 	whereFn  string
+	If       string // filter on the `every` event: only events for which it holds are obliged
+	ifFn     string
+	oldFns   []string
 }
 
 type MethodSelector struct {
@@ -128,7 +133,34 @@ func parseEffect(ec *EffectClause, text string) error {
 		ec.Where = strings.TrimSpace(text[i+7:])
 		text = strings.TrimSpace(text[:i])
 	}
-	if i := strings.Index(text, " needs "); i >= 0 {
+	// every P if C ...: only events for which C (over P's captures) holds are considered
+	if i := strings.Index(text, " if "); i >= 0 {
+		rest := text[i+4:]
+		end := len(rest)
+		for _, kw := range []string{" needs ", " forbids "} {
+			if j := strings.Index(rest, kw); j >= 0 && j < end {
+				end = j
+			}
+		}
+		ec.If = strings.ReplaceAll(strings.TrimSpace(rest[:end]), "$", "cap_")
+		text = strings.TrimSpace(text[:i]) + rest[end:]
+	}
+	if i := strings.Index(text, " forbids "); i >= 0 {
+		// every P forbids before|after Q [where C]: no event matching Q (for which C holds) exists before|after E
+		n := strings.TrimSpace(text[i+9:])
+		text = strings.TrimSpace(text[:i])
+		dir, pat, ok := strings.Cut(n, " ")
+		if !ok || (dir != "before" && dir != "after") {
+			return fmt.Errorf("forbids must be followed by before|after and a pattern")
+		}
+		ec.NeedsDir = dir
+		ec.Forbid = true
+		p, err := parsePattern(pat)
+		if err != nil {
+			return err
+		}
+		ec.Needs = p
+	} else if i := strings.Index(text, " needs "); i >= 0 {
 		n := strings.TrimSpace(text[i+7:])
 		text = strings.TrimSpace(text[:i])
 		dir, pat, ok := strings.Cut(n, " ")
@@ -374,11 +406,23 @@ func (lc *lowerCtx) lowerEffects(fc *FuncContract, body *strings.Builder, checkP
 							return fmt.Errorf("pattern %q: %v", p.src, err)
 						}
 						if sel, ok := sinfo.Selections[sex.(*ast.SelectorExpr)]; ok {
-							f := sel.Obj().(*types.Func)
-							p.static = f.FullName()
-							sig = f.Type().(*types.Signature)
+							if f, isFunc := sel.Obj().(*types.Func); isFunc {
+								p.static = f.FullName()
+								sig = f.Type().(*types.Signature)
+								p.recvSrc = ""
+							} else if fs, isSig := sel.Type().Underlying().(*types.Signature); isSig {
+								// call of a func-typed field: matched by the identity of the function value
+								p.dynamic = true
+								sig = fs
+								p.recvFunc = fmt.Sprintf("verif_effrecv_%d_%d_%s", k, pi, base)
+								names := lc.usedNames(sex)
+								ps, err := lc.paramList(names, "requires", nil)
+								if err != nil {
+									return err
+								}
+								fmt.Fprintf(body, "func %s(%s) any {\n\treturn %s\n}\n\n", p.recvFunc, ps, p.recvSrc+"."+p.method)
+							}
 						}
-						p.recvSrc = ""
 					}
 				} else {
 					// package-qualified function
@@ -442,36 +486,69 @@ func (lc *lowerCtx) lowerEffects(fc *FuncContract, body *strings.Builder, checkP
 		if where == "" {
 			where = "true"
 		}
-		low, err := lowerExpr(where)
-		if err != nil {
-			return err
-		}
-		wex, err := parser.ParseExpr(low)
-		if err != nil {
-			return fmt.Errorf("effect %s: %v in %q", ec.Label, err, low)
-		}
-		names := lc.usedNames(wex)
-		// captures are parameters too
-		seen := map[string]bool{}
-		for _, n := range names {
-			seen[n] = true
-		}
-		ast.Inspect(wex, func(n ast.Node) bool {
-			if id, ok := n.(*ast.Ident); ok && strings.HasPrefix(id.Name, "cap_") && !seen[id.Name] {
-				if _, ok := capTypes[id.Name]; ok {
-					names = append(names, id.Name)
-					seen[id.Name] = true
-				}
+		// old(e) inside a where condition is e evaluated in the entry state of the function
+		var olds []string
+		where, olds = extractOlds(where)
+		ec.oldFns = nil
+		for oi, oe := range olds {
+			oex, err := parser.ParseExpr(oe)
+			if err != nil {
+				return fmt.Errorf("effect %s: old(%s): %v", ec.Label, oe, err)
 			}
-			return true
-		})
-		sort.Strings(names)
-		ps, err := lc.paramList(names, "requires", capTypes)
-		if err != nil {
-			return err
+			ot, _, err := checkPos(oex)
+			if err != nil {
+				return fmt.Errorf("effect %s: old(%s): %v", ec.Label, oe, err)
+			}
+			ops, err := lc.paramList(lc.usedNames(oex), "requires", nil)
+			if err != nil {
+				return err
+			}
+			ofn := fmt.Sprintf("verif_effold_%s_%d_%d_%s", safeName(ec.Label), k, oi, base)
+			fmt.Fprintf(body, "func %s(%s) %s {\n\treturn %s\n}\n\n", ofn, ops, types.TypeString(ot, lc.g.qualifier), oe)
+			ec.oldFns = append(ec.oldFns, ofn)
+			capTypes[fmt.Sprintf("gocvold_%d", oi)] = types.TypeString(ot, lc.g.qualifier)
 		}
-		ec.whereFn = fmt.Sprintf("verif_eff_%s_%d_%s", safeName(ec.Label), k, base)
-		fmt.Fprintf(body, "func %s(%s) bool {\n\treturn %s\n}\n\n", ec.whereFn, ps, low)
+		for ci, cond := range []string{where, ec.If} {
+			if ci == 1 && cond == "" {
+				continue
+			}
+			low, err := lowerExpr(cond)
+			if err != nil {
+				return err
+			}
+			wex, err := parser.ParseExpr(low)
+			if err != nil {
+				return fmt.Errorf("effect %s: %v in %q", ec.Label, err, low)
+			}
+			names := lc.usedNames(wex)
+			// captures are parameters too
+			seen := map[string]bool{}
+			for _, n := range names {
+				seen[n] = true
+			}
+			ast.Inspect(wex, func(n ast.Node) bool {
+				if id, ok := n.(*ast.Ident); ok && strings.HasPrefix(id.Name, "cap_") && !seen[id.Name] {
+					if _, ok := capTypes[id.Name]; ok {
+						names = append(names, id.Name)
+						seen[id.Name] = true
+					}
+				}
+				return true
+			})
+			sort.Strings(names)
+			ps, err := lc.paramList(names, "requires", capTypes)
+			if err != nil {
+				return err
+			}
+			fn := fmt.Sprintf("verif_eff_%s_%d_%s", safeName(ec.Label), k, base)
+			if ci == 1 {
+				fn = fmt.Sprintf("verif_effif_%s_%d_%s", safeName(ec.Label), k, base)
+				ec.ifFn = fn
+			} else {
+				ec.whereFn = fn
+			}
+			fmt.Fprintf(body, "func %s(%s) bool {\n\treturn %s\n}\n\n", fn, ps, low)
+		}
 	}
 	return nil
 }
@@ -487,7 +564,24 @@ type matchInfo struct {
 
 func (e *Engine) matchPattern(sp *ssa.Package, p *callPattern, ev Event, prov func(string) (Val, bool)) (*matchInfo, bool) {
 	mi := &matchInfo{cond: "true", caps: map[string]Val{}}
-	if p.static != "" {
+	if p.dynamic {
+		if ev.Callee != "<dynamic>" || ev.RecvT == "" {
+			return nil, false
+		}
+		rf := sp.Func(p.recvFunc)
+		if rf == nil {
+			return nil, false
+		}
+		rv := e.pureCallIn(sp, rf, e.bindLowered(rf, prov), nil, e.entryState)[0]
+		rt, ok := rv.(OpaqueV)
+		if !ok {
+			return nil, false
+		}
+		mi.cond = eq(rt.T, ev.RecvT)
+		if mi.cond == "false" {
+			return nil, false
+		}
+	} else if p.static != "" {
 		if ev.Static == nil || (staticFullName(ev.Static) != p.static && ev.Static.String() != p.static) {
 			return nil, false
 		}
@@ -581,14 +675,35 @@ func (e *Engine) effectObligations(sp *ssa.Package, fc *FuncContract, fn *ssa.Fu
 		if wf == nil {
 			panic(unsupported{"missing lowered effect condition " + ec.whereFn})
 		}
-		evalWhere := func(caps map[string]Val) string {
+		olds := map[string]Val{}
+		for oi, on := range ec.oldFns {
+			of := sp.Func(on)
+			if of == nil {
+				panic(unsupported{"missing lowered old() function " + on})
+			}
+			olds[fmt.Sprintf("gocvold_%d", oi)] = e.pureCallIn(sp, of, e.bindLowered(of, prov), nil, e.entryState)[0]
+		}
+		evalWhereIn := func(caps map[string]Val, st *State) string {
 			as := e.bindLowered(wf, func(name string) (Val, bool) {
 				if v, ok := caps[name]; ok {
 					return e.thaw(v), true
 				}
+				if v, ok := olds[name]; ok {
+					return v, true
+				}
 				return prov(name)
 			})
-			return e.pureCallIn(sp, wf, as, nil, e.entryState)[0].(BoolV).T
+			if st == nil {
+				st = e.entryState
+			}
+			return e.pureCallIn(sp, wf, as, nil, st)[0].(BoolV).T
+		}
+		var curEv *Event
+		evalWhere := func(caps map[string]Val) string {
+			if curEv != nil && curEv.St != nil {
+				return evalWhereIn(caps, curEv.St)
+			}
+			return evalWhereIn(caps, nil)
 		}
 		matched := 0
 		for _, ev := range e.events {
@@ -597,7 +712,29 @@ func (e *Engine) effectObligations(sp *ssa.Package, fc *FuncContract, fn *ssa.Fu
 				continue
 			}
 			matched++
+			evCopy := ev
+			curEv = &evCopy
 			reach := and(ev.Guard, mi.cond)
+			if ec.ifFn != "" {
+				iff := sp.Func(ec.ifFn)
+				if iff == nil {
+					panic(unsupported{"missing lowered effect filter " + ec.ifFn})
+				}
+				as := e.bindLowered(iff, func(name string) (Val, bool) {
+					if v, ok := mi.caps[name]; ok {
+						return e.thaw(v), true
+					}
+					return prov(name)
+				})
+				stf := ev.St
+				if stf == nil {
+					stf = e.entryState
+				}
+				reach = and(reach, e.pureCallIn(sp, iff, as, nil, stf)[0].(BoolV).T)
+				if reach == "false" {
+					continue
+				}
+			}
 			var goal string
 			if ec.Needs == nil {
 				goal = evalWhere(mi.caps)
@@ -621,6 +758,9 @@ func (e *Engine) effectObligations(sp *ssa.Package, fc *FuncContract, fn *ssa.Fu
 					dis = append(dis, and(fv.Guard, mf.cond, evalWhere(caps)))
 				}
 				goal = or(dis...)
+				if ec.Forbid {
+					goal = not(goal)
+				}
 			}
 			callee := ev.Callee
 			if ev.Static != nil {
